@@ -5,6 +5,7 @@
 import TaRs.Lemmas.Core.WeightedMovingAverage
 import TaRs.Gen.WeightedMovingAverage
 import TaRs.Lemmas.RsLemmas
+import TaRs.Lemmas.Total.WeightedMovingAverage
 namespace TaRs.Gen.WeightedMovingAverage
 open TaRs TaRs.Rs
 
@@ -39,18 +40,5 @@ theorem next_eq (s : WeightedMovingAverage F) (x v : F) (h : WF s) (hv : s.deque
   try simp only [gen_helper]
   rs_exec
   all_goals (first | omega | (subst hv; rfl))
-
-/-- `next` never panics on a well-formed state, keeps it well-formed and keeps the period -/
-theorem next_total (s : WeightedMovingAverage F) (x : F) (h : WF s) :
-    ∃ r, s.next x = some r ∧ WF r.1 ∧ r.1.period = s.period := by
-  have hix : s.index < s.deque.size := by have := h.size; have := h.idx; omega
-  refine ⟨_, next_eq s x _ h (Array.getElem?_eq_getElem hix), ?_, rfl⟩
-  obtain ⟨hp, hs, hsz, hi, hc⟩ := h
-  constructor <;> simp only [Array.size_setIfInBounds] <;> (try split) <;> omega
-
-theorem nextBar_eq (s : WeightedMovingAverage F) (b : Bar F) : s.nextBar b = s.next b.close := by
-  unfold nextBar
-  try simp only [gen_helper]
-  cases h : s.next b.close <;> simp [h]
 
 end TaRs.Gen.WeightedMovingAverage
